@@ -4,7 +4,7 @@
 //! as separate OS processes with identical / different seeds and progress-bar settings and TLC
 //! compares the outputs (SimEq.tla).
 //!
-//! usage: sim_run --configs FILE --out FILE --progress true|false [--seed-shift K] [--order reverse-twice]
+//! usage: sim_run --configs FILE --out FILE --progress true|false [--seed-shift K] [--order reverse-twice] [--expansion second]
 //!
 //! `--order reverse-twice`: the configurations are run in reverse order and each one twice in a row inside this process; the
 //! output of the SECOND run of each is written, in the original order of the configurations.  A simulation that depends on
@@ -17,26 +17,77 @@ use bourse_verif_harness::proj::{order_tuple, trade_tuple, price_s};
 use serde_json::{json, Value};
 use std::io::Write;
 
-#[derive(AgentSet)]
-struct Mixed { r: RandomAgents, n: NoiseAgent, m: MomentumAgent }
+// The agent sets are declared TWICE, in two modules, from the same text: two independent expansions of the derive macros.
+// Processes that run "the same simulation" with the other expansion (--expansion second) must produce the same outcome -
+// whatever a derive expansion takes from its environment (the iteration order of a hash map inside the macro crate, say) must
+// not reach the simulation.
+macro_rules! agent_sets {
+    ($m:ident) => {
+        pub mod $m {
+            use super::*;
+            #[derive(AgentSet)]
+            pub struct Mixed { pub r: RandomAgents, pub n: NoiseAgent, pub m: MomentumAgent }
 
-#[derive(AgentSet)]
-struct TwoNoise { n1: NoiseAgent, n2: NoiseAgent }
+            #[derive(AgentSet)]
+            pub struct TwoNoise { pub n1: NoiseAgent, pub n2: NoiseAgent }
 
-#[derive(AgentSet)]
-struct Nested { inner: TwoNoise, r: RandomAgents, m: MomentumAgent }
+            #[derive(AgentSet)]
+            pub struct Nested { pub inner: TwoNoise, pub r: RandomAgents, pub m: MomentumAgent }
 
-#[derive(AgentSet)]
-struct OnlyRandom { r: RandomAgents }
+            #[derive(AgentSet)]
+            pub struct OnlyRandom { pub r: RandomAgents }
 
-#[derive(MarketAgentSet)]
-struct MMixed { r0: RandomMarketAgents, n1: NoiseMarketAgent, m0: MomentumMarketAgent, r1: RandomMarketAgents }
+            #[derive(MarketAgentSet)]
+            pub struct MMixed { pub r0: RandomMarketAgents, pub n1: NoiseMarketAgent, pub m0: MomentumMarketAgent, pub r1: RandomMarketAgents }
 
-#[derive(MarketAgentSet)]
-struct MInner { n0: NoiseMarketAgent, n1: NoiseMarketAgent }
+            #[derive(MarketAgentSet)]
+            pub struct MInner { pub n0: NoiseMarketAgent, pub n1: NoiseMarketAgent }
 
-#[derive(MarketAgentSet)]
-struct MNested { inner: MInner, m1: MomentumMarketAgent }
+            #[derive(MarketAgentSet)]
+            pub struct MNested { pub inner: MInner, pub m1: MomentumMarketAgent }
+
+            pub fn run_market(comp: &str, env: &mut MarketEnv<2, 10>, seed: u64, steps: u64, progress: bool, tick: u32, z: u32) {
+                match comp {
+                    "MMixed" => {
+                        let mut a = MMixed { r0: RandomMarketAgents::new(0, 6 * z as usize, (20, 40), (1, 20), tick, 0.5), n1: NoiseMarketAgent::new(1, 100000, (5 * z) as u16, noise(tick, 1)),
+                            m0: MomentumMarketAgent::new(200000, (4 * z) as u16, 0, mom(tick, 0)), r1: RandomMarketAgents::new(1, 4 * z as usize, (10, 30), (5, 9), tick, 0.8) };
+                        market_sim_runner(env, &mut a, seed, steps, progress);
+                    }
+                    _ => {
+                        let mut a = MNested { inner: MInner { n0: NoiseMarketAgent::new(0, 0, (6 * z) as u16, noise(tick, 0)), n1: NoiseMarketAgent::new(1, 50000, (6 * z) as u16, noise(tick, 2)) },
+                            m1: MomentumMarketAgent::new(300000, (3 * z) as u16, 1, mom(tick, 1)) };
+                        market_sim_runner(env, &mut a, seed, steps, progress);
+                    }
+                }
+            }
+
+            pub fn run_single(comp: &str, env: &mut Env, seed: u64, steps: u64, progress: bool, tick: u32, z: u32, rate: f32) {
+                match comp {
+                    "Mixed" => {
+                        let mut a = Mixed { r: RandomAgents::new(8 * z as usize, (20, 40), (1, 20), tick, 0.6), n: NoiseAgent::new(100000, (6 * z) as u16, noise(tick, 0)), m: MomentumAgent::new(200000, (5 * z) as u16, mom(tick, 0)) };
+                        sim_runner(env, &mut a, seed, steps, progress);
+                    }
+                    "Nested" => {
+                        let mut a = Nested { inner: TwoNoise { n1: NoiseAgent::new(0, (4 * z) as u16, noise(tick, 1)), n2: NoiseAgent::new(10000, (4 * z) as u16, noise(tick, 2)) },
+                            r: RandomAgents::new(5 * z as usize, (15, 25), (2, 6), tick, 0.9), m: MomentumAgent::new(300000, (3 * z) as u16, mom(tick, 2)) };
+                        sim_runner(env, &mut a, seed, steps, progress);
+                    }
+                    "TwoNoise" => {
+                        let mut a = TwoNoise { n1: NoiseAgent::new(0, (10 * z) as u16, noise(tick, 0)), n2: NoiseAgent::new(10000, (10 * z) as u16, noise(tick, 1)) };
+                        sim_runner(env, &mut a, seed, steps, progress);
+                    }
+                    _ => {
+                        let mut a = OnlyRandom { r: RandomAgents::new(12 * z as usize, (20, 40), (1, 20), tick, rate) };
+                        sim_runner(env, &mut a, seed, steps, progress);
+                    }
+                }
+            }
+        }
+    };
+}
+agent_sets!(first);
+agent_sets!(second);
+static SECOND: std::sync::atomic::AtomicBool = std::sync::atomic::AtomicBool::new(false);
 
 // price-distribution width: the configuration's "sigma" when given (the documentation's heavy-tailed 10.0 among them), else per member
 static SIGMA: std::sync::atomic::AtomicU32 = std::sync::atomic::AtomicU32::new(0);
@@ -69,6 +120,7 @@ fn main() {
             "--progress" => { progress = args[i + 1] == "true"; i += 1 }
             "--seed-shift" => { shift = args[i + 1].parse().unwrap(); i += 1 }
             "--order" => { reverse_twice = args[i + 1] == "reverse-twice"; i += 1 }
+            "--expansion" => { SECOND.store(args[i + 1] == "second", std::sync::atomic::Ordering::Relaxed); i += 1 }
             a => { eprintln!("unknown argument {}", a); std::process::exit(2) }
         }
         i += 1;
@@ -99,6 +151,8 @@ fn run_one(f: &mut Vec<u8>, ci: usize, c: &Value, shift: u64, progress: bool) {
         let comp = c["comp"].as_str().unwrap();
         // population scale: every member's agent count is multiplied by it (large populations: thousands of instructions per step)
         let z = c.get("scale").and_then(|x| x.as_u64()).unwrap_or(1) as u32;
+        // activity rate of the OnlyRandom population (1.0: every agent submits exactly one instruction in every step)
+        let rate = c.get("rate").and_then(|x| x.as_f64()).unwrap_or(0.5) as f32;
         SIGMA.store((c.get("sigma").and_then(|x| x.as_f64()).unwrap_or(0.0) * 10.0) as u32, std::sync::atomic::Ordering::Relaxed);
         // "pre": the environment has a history before the runner is called - far-away quotes are placed and `pre` steps taken by hand
         // (as the crate's own agent tests open a book), then the simulation runs on it; every process does the same
@@ -115,18 +169,8 @@ fn run_one(f: &mut Vec<u8>, ci: usize, c: &Value, shift: u64, progress: bool) {
                 }
                 for _ in 0..pre { env.step(&mut r0); }
             }
-            match comp {
-                "MMixed" => {
-                    let mut a = MMixed { r0: RandomMarketAgents::new(0, 6 * z as usize, (20, 40), (1, 20), tick, 0.5), n1: NoiseMarketAgent::new(1, 100000, (5 * z) as u16, noise(tick, 1)),
-                        m0: MomentumMarketAgent::new(200000, (4 * z) as u16, 0, mom(tick, 0)), r1: RandomMarketAgents::new(1, 4 * z as usize, (10, 30), (5, 9), tick, 0.8) };
-                    market_sim_runner(&mut env, &mut a, seed, steps, progress);
-                }
-                _ => {
-                    let mut a = MNested { inner: MInner { n0: NoiseMarketAgent::new(0, 0, (6 * z) as u16, noise(tick, 0)), n1: NoiseMarketAgent::new(1, 50000, (6 * z) as u16, noise(tick, 2)) },
-                        m1: MomentumMarketAgent::new(300000, (3 * z) as u16, 1, mom(tick, 1)) };
-                    market_sim_runner(&mut env, &mut a, seed, steps, progress);
-                }
-            }
+            if SECOND.load(std::sync::atomic::Ordering::Relaxed) { second::run_market(comp, &mut env, seed, steps, progress, tick, z) }
+            else { first::run_market(comp, &mut env, seed, steps, progress, tick, z) }
             for a in 0..2 {
                 dump_book(f, &tag, a, env.get_orders(a).iter().map(|o| order_tuple(o)).collect(), env.get_trades(a).iter().map(trade_tuple).collect());
                 let (p, v) = (env.get_prices(a), env.get_volumes(a));
@@ -147,25 +191,8 @@ fn run_one(f: &mut Vec<u8>, ci: usize, c: &Value, shift: u64, progress: bool) {
                 env.place_order(bourse_book::types::Side::Ask, 50, 999_999, Some(60 * tick)).unwrap();
                 for _ in 0..pre { env.step(&mut r0); }
             }
-            match comp {
-                "Mixed" => {
-                    let mut a = Mixed { r: RandomAgents::new(8 * z as usize, (20, 40), (1, 20), tick, 0.6), n: NoiseAgent::new(100000, (6 * z) as u16, noise(tick, 0)), m: MomentumAgent::new(200000, (5 * z) as u16, mom(tick, 0)) };
-                    sim_runner(&mut env, &mut a, seed, steps, progress);
-                }
-                "Nested" => {
-                    let mut a = Nested { inner: TwoNoise { n1: NoiseAgent::new(0, (4 * z) as u16, noise(tick, 1)), n2: NoiseAgent::new(10000, (4 * z) as u16, noise(tick, 2)) },
-                        r: RandomAgents::new(5 * z as usize, (15, 25), (2, 6), tick, 0.9), m: MomentumAgent::new(300000, (3 * z) as u16, mom(tick, 2)) };
-                    sim_runner(&mut env, &mut a, seed, steps, progress);
-                }
-                "TwoNoise" => {
-                    let mut a = TwoNoise { n1: NoiseAgent::new(0, (10 * z) as u16, noise(tick, 0)), n2: NoiseAgent::new(10000, (10 * z) as u16, noise(tick, 1)) };
-                    sim_runner(&mut env, &mut a, seed, steps, progress);
-                }
-                _ => {
-                    let mut a = OnlyRandom { r: RandomAgents::new(12 * z as usize, (20, 40), (1, 20), tick, 0.5) };
-                    sim_runner(&mut env, &mut a, seed, steps, progress);
-                }
-            }
+            if SECOND.load(std::sync::atomic::Ordering::Relaxed) { second::run_single(comp, &mut env, seed, steps, progress, tick, z, rate) }
+            else { first::run_single(comp, &mut env, seed, steps, progress, tick, z, rate) }
             dump_book(f, &tag, 0, env.get_orders().iter().map(|o| order_tuple(o)).collect(), env.get_trades().iter().map(trade_tuple).collect());
             let (p, v) = (env.get_prices(), env.get_volumes());
             let h = env.get_level_2_data_history();
